@@ -128,7 +128,9 @@ _WALRUS = {}
 
 
 def _walrus_binding(node, name):
-    """the only `(name := value)` of the enclosing function, if the function binds ``name`` in no other way"""
+    """the only `(name := value)` of the enclosing function.  Only consulted for a name the path has not bound by a statement (every
+    assignment / loop / with / except binding executed on the path is recorded in the state), so on such a path the walrus - nested in a
+    condition, where the engine does not bind it - is what bound the name, even if other paths rebind it (`if (x := self.e) is None: x = self.e = E()`)"""
     fn = getattr(node, "_parent", None)
     while fn is not None and not isinstance(fn, (ast.FunctionDef, ast.AsyncFunctionDef)):
         fn = getattr(fn, "_parent", None)
@@ -136,16 +138,13 @@ def _walrus_binding(node, name):
         return None
     tab = _WALRUS.get(id(fn))
     if tab is None or tab[0] is not fn:
-        found, stores = {}, {}
+        found, params = {}, set()
         for n in ast.walk(fn):
             if isinstance(n, ast.NamedExpr):
                 found.setdefault(n.target.id, []).append(n)
-            elif isinstance(n, ast.Name) and isinstance(n.ctx, (ast.Store, ast.Del)):
-                stores[n.id] = stores.get(n.id, 0) + 1
             elif isinstance(n, ast.arg):
-                stores[n.arg] = stores.get(n.arg, 0) + 2
-        # ast.walk yields the walrus target as a Store Name too: exactly one store = the walrus itself
-        tab = (fn, {k: v[0] for k, v in found.items() if len(v) == 1 and stores.get(k, 0) == 1})
+                params.add(n.arg)  # parameters are bound at entry
+        tab = (fn, {k: v[0] for k, v in found.items() if len(v) == 1 and k not in params})
         _WALRUS[id(fn)] = tab
     return tab[1].get(name)
 
@@ -377,12 +376,27 @@ class HookHandlerSpec(VSpec):
                 out.append(("waitx",))
         return out
 
+    def is_the_flow(self, v) -> bool:
+        """the value *is* the hook's datum (an element of `hook.args()`), not something computed from it"""
+        while v[0] in ("elem", "idx"):
+            v = v[1]
+        return v[0] == "call" and v[1][0] == "attr" and v[1][1] == ("param", self.hook_param) and v[1][2] == "args"
+
     def decide_extra(self, cond, st, depth):
         if isinstance(cond, ast.Call) and isinstance(cond.func, ast.Name) and cond.func.id == "isinstance" and len(cond.args) == 2:
             if self.is_hook_data(self.value(cond.args[0], st, depth)):
                 names = class_names(cond.args[1])
                 if "Flow" in names:
                     return True if self.data_is_flow else (False if names == ["Flow"] else None)
+        if self.data_is_flow:
+            # in the scenario the hook's datum is a Flow object: it is not None and (Flow defines neither __bool__ nor __len__) truthy, so a
+            # type test kept in a temporary (`held = data if isinstance(data, Flow) else None; ...; if held is not None:`) stays decided
+            if isinstance(cond, (ast.Name, ast.Attribute)) and self.is_the_flow(self.value(cond, st, depth)):
+                return True
+            if isinstance(cond, ast.Compare) and len(cond.ops) == 1 and isinstance(cond.ops[0], (ast.Is, ast.IsNot, ast.Eq, ast.NotEq)):
+                a, b = self.value(cond.left, st, depth), self.value(cond.comparators[0], st, depth)
+                if (self.is_the_flow(a) and b == C(None)) or (self.is_the_flow(b) and a == C(None)):
+                    return isinstance(cond.ops[0], (ast.IsNot, ast.NotEq))
         return VSpec.decide_extra(self, cond, st, depth)
 
 
